@@ -33,7 +33,7 @@ LEVEL_TEXT = ('Proof: Coq theorems over a hand-written model of the decompiler (
               'its text is the canonical print of the source and parses back to it; for every exit-free nest of if / if-else / repeat while '
               '(any depth) the emitted text is the canonical layout of the source program (C02_structured_text_is_canonical, on the C03 theorem). Tie: the model agrees with /repo on the text '
               'of every fixture and every generated program; the implementation\'s text is parsed back independently.')
-LEVEL_NOTE = 'Sound / sprite / cast / field / menu / menuItem properties, the last / number of chunks, special / date-time / system properties, properties by name (the <name>, the <name> of <e>) are inside the proved core (inversion and Lingo text). Key / mouse / date properties, field <x>, and the assignments to special / system / by-name properties are inside too. Families outside it (chunk ranges, put/delete/hilite, tell, factories) are covered by the correspondence and the parser oracle only. Spec tie: the specification side of the theorems (Director\'s scheme compile_*, the canonical texts) is extracted and, on every generated handler inside the fragment, compared with the harness compiler (bytes) and with the text the implementation emits.'
+LEVEL_NOTE = 'Sound / sprite / cast / field / menu / menuItem properties, the last / number of chunks, special / date-time / system properties, properties by name (the <name>, the <name> of <e>) are inside the proved core (inversion and Lingo text). Key / mouse / date properties, field <x>, and the assignments to special / system / by-name properties are inside too. put into / after / before a field or a local variable, and exit written out, are inside too. Families outside it (chunk ranges, put on chunks, delete / hilite, tell, factories) are covered by the correspondence and the parser oracle only. Spec tie: the specification side of the theorems (Director\'s scheme compile_*, the canonical texts) is extracted and, on every generated handler inside the fragment, compared with the harness compiler (bytes) and with the text the implementation emits.'
 TECHNIQUE = 'Coq proof by induction over the expression tree and the program structure (compile / symbolic-execute inversion, printer/parser round trip, structured layout) + model/implementation correspondence'
 
 def gen_cases(rng, tier):
